@@ -39,6 +39,13 @@ fn check_backing(ms: &MinerSnap, vr: &VrSnap, backing: &Backing, epoch: ChainEpo
         if !live.contains(sn) || !s.verified_deal_weight.is_positive() {
             continue;
         }
+        // a sector past its expiration epoch is only waiting for the cron at the end of its deadline: its
+        // committed life is over, and its claims (whose terms covered that life) may legitimately have
+        // expired and been removed in the meantime
+        if epoch > s.expiration {
+            o.count("sectors_past_expiration_awaiting_cron_not_judged");
+            continue;
+        }
         o.count("verified_sector_checks");
         let dur = s.expiration - s.power_base_epoch;
         let space = &s.verified_deal_weight / BigInt::from(dur);
